@@ -361,6 +361,60 @@ theorem region_key_lt (L c s bi : Nat) (hc : 0 < c) (hs : s % c = 0) (hL : 0 < L
   have h2 : (L - 1) / c < nblocks L c := pos_block_lt L c (L - 1) hc (by omega)
   omega
 
+/-- repaired region store: for every target block the (unit-step, aligned, right-sized) region meets, the task reads an
+existing block of the rechunked source, of exactly the shape of the region's share of that block. -/
+theorem region_task_ok (p : RegionP) (hc : 0 < p.tgtChunk) (hmod : p.nlo % p.tgtChunk = 0)
+    (hL : p.srcLen = p.nhi - p.nlo) (hpos : 0 < p.srcLen) (bi : Nat)
+    (hlo : p.nlo / p.tgtChunk ≤ bi) (hhi : bi ≤ (p.nhi - 1) / p.tgtChunk) : regionTaskOk p bi = true := by
+  unfold regionTaskOk regionKeyN RegionP.effChunk regionShare
+  generalize p.tgtChunk = cs at *
+  generalize p.nlo = lo at *
+  generalize p.nhi = hi at *
+  generalize p.srcLen = L at *
+  obtain ⟨k, rfl⟩ := Nat.exists_eq_add_of_le hlo
+  have hlo' : lo / cs * cs = lo := Nat.div_mul_cancel (Nat.dvd_of_mod_eq_zero hmod)
+  have h1 : (lo / cs + k) * cs ≤ hi - 1 := (Nat.le_div_iff_mul_le hc).mp hhi
+  have h2 : (lo / cs + k) * cs = lo / cs * cs + k * cs := Nat.add_mul _ _ _
+  have h3 : (lo / cs + k + 1) * cs = lo / cs * cs + k * cs + cs := by
+    rw [Nat.add_mul, Nat.add_mul, Nat.one_mul]
+  have hkey : ((lo / cs + k : Nat) : Int) - ((lo / cs : Nat) : Int) = (k : Int) := by omega
+  rw [hkey, h3, h2, hlo']
+  simp only [Bool.and_eq_true, decide_eq_true_eq, beq_iff_eq, Int.toNat_natCast]
+  rw [h2, hlo'] at h1
+  generalize hX : k * cs = X at *
+  refine ⟨⟨Int.natCast_nonneg k, ?_⟩, ?_⟩
+  · by_cases hLc : cs ≤ L
+    · have he : max (min cs L) 1 = cs := by omega
+      rw [he]
+      have := pos_block_lt L cs (k * cs) hc (by omega)
+      rwa [Nat.mul_div_cancel k hc] at this
+    · have hk : k = 0 := by
+        rcases k with _ | k'
+        · rfl
+        · exfalso
+          have : (k' + 1) * cs = k' * cs + cs := by rw [Nat.add_mul, Nat.one_mul]
+          omega
+      subst hk
+      exact nblocks_pos L _ (by omega)
+  · by_cases hLc : cs ≤ L
+    · have he : max (min cs L) 1 = cs := by omega
+      rw [he]
+      unfold blockLen
+      rw [hX]
+      omega
+    · have hk : k = 0 := by
+        rcases k with _ | k'
+        · rfl
+        · exfalso
+          have : (k' + 1) * cs = k' * cs + cs := by rw [Nat.add_mul, Nat.one_mul]
+          omega
+      subst hk
+      have he : max (min cs L) 1 = L := by omega
+      rw [he]
+      unfold blockLen
+      simp at hX
+      omega
+
 /-! ## vendored reshape helpers -/
 
 theorem expandOne_sum (cond : Nat → Bool) (part fuel x : Nat) (hcond : ∀ y, cond y = true → part ≤ y) :
